@@ -74,7 +74,7 @@ def regression_replays(adapter):
     return out
 
 
-def handle_violations(adapter, seed, violations, findings):
+def handle_violations(adapter, seed, violations, findings, tier="quick"):
     """Classify, minimise, write and confirm replay files.  Returns (n_unlisted, lines)."""
     lines = []
     by_sig = {}
@@ -94,6 +94,7 @@ def handle_violations(adapter, seed, violations, findings):
         if unlisted > 6:
             continue
         case = vj["extra"].pop("case", None)
+        batch_lo = vj.get("batch_lo", idx)
         small = case
         note = None
         t0 = time.time()
@@ -118,9 +119,21 @@ def handle_violations(adapter, seed, violations, findings):
         # ... and in a fresh process
         ok, out = core.confirm_replay_in_fresh_process(adapter.prop, path, sig)
         if not ok:
-            lines.append("HARNESS-ERROR: replay of %s did not reproduce %s in a fresh process:\n%s"
-                         % (path, sig, out[-1500:]))
-            raise core.HarnessError("\n".join(lines))
+            # The case alone does not fail in a fresh process: the library kept state from EARLIER runs
+            # of the same (hermetic) batch.  The replay file then names the run range to re-execute.
+            lo = batch_lo
+            rerun = {"rerun": {"verif_seed": seed, "tier": tier, "lo": lo, "hi": idx,
+                               "why": "the failing case passes on its own in a fresh process; it needs the state left "
+                                      "behind by runs %d..%d executed before it in the same process" % (lo, idx - 1),
+                               "failing_case": small}}
+            path = core.write_replay(adapter.prop, seed, idx, rerun, vj, minimised_from={"note": "run-range replay"})
+            ok2, out2 = core.confirm_replay_in_fresh_process(adapter.prop, path, sig)
+            if not ok2:
+                lines.append("HARNESS-ERROR: replay of %s did not reproduce %s in a fresh process:\n%s\n%s"
+                             % (path, sig, out[-800:], out2[-800:]))
+                raise core.HarnessError("\n".join(lines))
+            lines.append("note: this violation needs state left by earlier runs in the same process; replay re-executes "
+                         "runs %d..%d" % (lo, idx))
         lines.append("violation: %s" % vj["message"][:600])
         lines.append("VIOLATION property=%s replay=%s signature=%s run_index=%d seed=%d"
                      % (adapter.prop, path, sig, idx, seed))
@@ -153,6 +166,16 @@ def main(argv=None):
 
         if args.replay:
             doc = core.read_replay(args.replay)
+            if isinstance(doc.get("case"), dict) and "rerun" in doc["case"]:
+                rr = doc["case"]["rerun"]
+                found = core.rerun_range(adapter.run, rr["verif_seed"], rr["lo"], rr["hi"], adapter.opts(rr.get("tier", "quick")))
+                hit = [vj for i, vj in found if i == rr["hi"]]
+                if hit:
+                    print("violation: %s" % hit[0]["message"][:600])
+                    print("VIOLATION property=%s replay=%s signature=%s" % (adapter.prop, args.replay, hit[0]["signature"]))
+                    return core.EXIT_VIOLATION
+                print("replay of %s (runs %d..%d): no violation at run %d" % (args.replay, rr["lo"], rr["hi"], rr["hi"]))
+                return core.EXIT_OK
             try:
                 adapter.replay(doc["case"])
             except core.Violation as v:
@@ -190,7 +213,7 @@ def main(argv=None):
 
         stats, violations, logd = core.farm(adapter.run, seed, n_runs, adapter.opts(tier))
         findings = core.load_known_findings()
-        unlisted, lines = handle_violations(adapter, seed, violations, findings)
+        unlisted, lines = handle_violations(adapter, seed, violations, findings, tier)
         wall = time.time() - t0
         cov = adapter.coverage(stats, tier, n_runs)
         cov.update(core.stats_to_coverage(stats))
